@@ -43,6 +43,52 @@ def closed_test_polarity(test):
     return 0
 
 
+def status_encoding_table(test):
+    """truth table of a guard over (status is Closed?) x (every other atom free): -> (set of outcomes when Closed, set when not Closed, other atoms).
+    Atoms other than the comparison of a status with LinkStatus.Closed are free booleans."""
+    import itertools
+    atoms = []
+
+    def collect(t):
+        if isinstance(t, ast.BoolOp):
+            for v in t.values:
+                collect(v)
+        elif isinstance(t, ast.UnaryOp) and isinstance(t.op, ast.Not):
+            collect(t.operand)
+        elif closed_test_polarity(t) == 0 and unparse(t) not in atoms:
+            atoms.append(unparse(t))
+    collect(test)
+
+    def ev(t, closed, val):
+        if isinstance(t, ast.BoolOp):
+            vs = [ev(v, closed, val) for v in t.values]
+            return all(vs) if isinstance(t.op, ast.And) else any(vs)
+        if isinstance(t, ast.UnaryOp) and isinstance(t.op, ast.Not):
+            return not ev(t.operand, closed, val)
+        p_ = closed_test_polarity(t)
+        if p_ == 1:
+            return closed
+        if p_ == -1:
+            return not closed
+        return val[unparse(t)]
+    when_closed, when_open = set(), set()
+    for combo in itertools.product([False, True], repeat=len(atoms)):
+        val = dict(zip(atoms, combo))
+        when_closed.add(ev(test, True, val))
+        when_open.add(ev(test, False, val))
+    return when_closed, when_open, atoms
+
+
+def status_guards(fn, store_pred):
+    """If statements of fn whose test mentions a status comparison with Closed and whose branches make the selected stores."""
+    out = []
+    for n in walk(fn):
+        if isinstance(n, ast.If) and any(closed_test_polarity(x) != 0 for x in ast.walk(n.test)):
+            if any(store_pred(c) for c in ast.walk(ast.Module(body=n.body + n.orelse, type_ignores=[]))):
+                out.append(n)
+    return out
+
+
 def const_stores(body, pred):
     """constants assigned / appended in a statement list where pred(stmt) selects the relevant stores."""
     vals = []
@@ -69,15 +115,23 @@ def run(repo, chk):
 
     # ---------------------------------------------------------------- R-C09-1 graph encoding
     # (a) initial values: closed -> 0,0 ; else 1,1
-    enc = [n for n in walk(ig) if isinstance(n, ast.If) and closed_test_polarity(n.test) != 0
-           and any(isinstance(c.func, ast.Attribute) and c.func.attr == "append" and unparse(c.func.value) == "vals" for c in calls(n))]
+    is_vals = lambda n: isinstance(n, ast.Call) and isinstance(n.func, ast.Attribute) and n.func.attr == "append" and unparse(n.func.value) == "vals"
+    enc = status_guards(ig, is_vals)
     if not enc:
         raise ExtractError("_initialize_internal_graph: status -> vals encoding not found")
     e0 = enc[0]
-    pol = closed_test_polarity(e0.test)
-    is_vals = lambda n: isinstance(n, ast.Call) and unparse(n.func.value) == "vals"
-    closed_vals = const_stores(e0.body if pol > 0 else e0.orelse, is_vals)
-    open_vals = const_stores(e0.orelse if pol > 0 else e0.body, is_vals)
+    wc, wo, other = status_encoding_table(e0.test)
+    then_vals = const_stores(e0.body, is_vals)
+    else_vals = const_stores(e0.orelse, is_vals)
+    # the branch taken must be a function of "status is Closed" alone
+    chk.expect(len(wc) == 1 and len(wo) == 1 and wc != wo, "R-C09-1", "initial graph: whether a link is connected depends on its status being Closed and on nothing else", loc(ig, e0),
+               "a link that is not closed must be connected whatever else is true of it (a path of non-closed links is never cut); other atoms in the guard: %s" % other,
+               expected="guard true iff status == Closed (or its negation)", found=unparse(e0.test))
+    if len(wc) == 1 and len(wo) == 1 and wc != wo:
+        closed_vals = then_vals if True in wc else else_vals
+        open_vals = else_vals if True in wc else then_vals
+    else:
+        closed_vals, open_vals = then_vals, else_vals
     chk.expect(closed_vals == [0, 0] and open_vals == [1, 1], "R-C09-1", "initial graph: a link contributes 0,0 iff its status is Closed, else 1,1 (both directions)", loc(ig, e0),
                "the connectivity entry of a link must be 0 exactly when it is closed", expected="closed [0, 0] / otherwise [1, 1]", found="closed %s / otherwise %s" % (closed_vals, open_vals))
     chk.expect("link.status" in unparse(e0.test), "R-C09-1", "initial graph uses the effective status (link.status), not the user or initial status", loc(ig, e0), found=unparse(e0.test))
@@ -121,15 +175,16 @@ def run(repo, chk):
         chk.expect(ok, "R-C09-1", "%s: a node pair joined by several links is connected iff any of them is not Closed (entry reset to 0, then set to 1)" % label, loc(fn),
                    "parallel links share one graph entry", found=found)
     # (b) update on status change
-    upd = [n for n in walk(ug) if isinstance(n, ast.If) and closed_test_polarity(n.test) != 0 and not any("link_list" in unparse(p_.iter) for p_ in [parent(n)] if isinstance(p_, ast.For))]
-    upd = [n for n in upd if "obj" in unparse(n.test)]
+    is_data = lambda n: isinstance(n, ast.Assign) and unparse(n.targets[0]).startswith("data[")
+    upd = [n for n in status_guards(ug, is_data) if "obj" in unparse(n.test)]
     if not upd:
         raise ExtractError("_update_internal_graph: status change encoding not found")
     u0 = upd[0]
-    pol = closed_test_polarity(u0.test)
-    is_data = lambda n: isinstance(n, ast.Assign) and unparse(n.targets[0]).startswith("data[")
-    cv = const_stores(u0.body if pol > 0 else u0.orelse, is_data)
-    ov = const_stores(u0.orelse if pol > 0 else u0.body, is_data)
+    wc, wo, other = status_encoding_table(u0.test)
+    chk.expect(len(wc) == 1 and len(wo) == 1 and wc != wo, "R-C09-1", "graph update: whether a link is connected depends on its status being Closed and on nothing else", loc(ug, u0),
+               "other atoms in the guard: %s" % other, found=unparse(u0.test))
+    cv = const_stores(u0.body if True in wc else u0.orelse, is_data)
+    ov = const_stores(u0.orelse if True in wc else u0.body, is_data)
     chk.expect(cv == [0, 0] and ov == [1, 1], "R-C09-1", "graph update: a status change writes 0,0 iff the new status is Closed, else 1,1", loc(ug, u0),
                expected="closed [0, 0] / otherwise [1, 1]", found="closed %s / otherwise %s" % (cv, ov))
     guard = parent(u0)
